@@ -1036,7 +1036,8 @@ class Models(Simd):
             if not (ln[1] == ln[2] == N):
                 outs.append((1, (TOP,)))
             return ("en", tuple(outs))
-        return ("en", ((0, (ip.default_value(re.sub(r"^core::result::Result<(.*), [^,]*>$", r"\1", dty)),)), (1, (TOP,))))
+        # any other conversion: a local impl is interpreted, an external one gets the most general value of its type (do_call)
+        return NotImplemented
 
     def m_enum_comb(self, ip, fv, st, depth, t, n, a, dty):
         is_res = "result::Result" in n
